@@ -5,14 +5,17 @@ import glob
 import json
 import os
 import subprocess
+import sys
 
 V = os.path.dirname(os.path.dirname(os.path.abspath(__file__)))
 props = [json.loads(l) for l in open(os.path.join(V, "properties.jsonl"))]
 m = json.load(open(os.path.join(V, "MANIFEST.json")))
 frags = {}
+only = set(sys.argv[1:])   # claim only these (default: every fragment present)
 for f in glob.glob(os.path.join(V, "checks", "*.manifest.json")):
     d = json.load(open(f))
-    frags[d["property_id"]] = d
+    if not only or d["property_id"] in only:
+        frags[d["property_id"]] = d
 old_na = {e["property_id"]: e["reason"] for e in m.get("not_applicable", [])}
 m["checks"] = []
 m["not_applicable"] = []
@@ -35,6 +38,8 @@ json.dump(m, open(os.path.join(V, "MANIFEST.json"), "w"), indent=1)
 
 kf = json.load(open(os.path.join(V, "known_findings.json")))
 for f in sorted(glob.glob(os.path.join(V, "findings", "*.json"))):
+    if only and os.path.basename(f)[:-5] not in only:
+        continue
     for e in json.load(open(f)).get("findings", []):
         if not any(o.get("property") == e.get("property") and o.get("key") == e.get("key") for o in kf["findings"]):
             kf["findings"].append(e)
